@@ -4,11 +4,12 @@
 (*   should_be_removed, read_commands), track.rs (TrackShared), handles'    *)
 (*   Drop, backend/resources/mixer.rs (removal order), and the parts of the *)
 (*   sounds that matter here (stop, finished, position).                    *)
-(* Scene: main <- A <- B, sound SA on A, SB on B.  One callback = one chunk *)
+(* Scene: a chain main <- A <- B [<- C] (Depth 2 or 3), one sound per track. *)
+(* One callback = one chunk                                                  *)
 (* of NF frames.  Fade values are abstracted to 0 (-60 dB) / 1 / 2 (0 dB).  *)
 EXTENDS Integers, Sequences, FiniteSets, TLC, P_C12
 
-CONSTANTS Durs, Waits, MaxOps, MaxCb, PersistA, PersistB, NF
+CONSTANTS Durs, Waits, MaxOps, MaxCb, PersistA, PersistB, PersistC, NF, Depth
 
 VARIABLES ts,        \* [Tracks -> state of the track's PlaybackStateManager]
           fv, fprev, \* [Tracks -> fade class]
@@ -28,23 +29,24 @@ vars == <<ivars, act, ev, mon, bad>>
 NoCmd == [c |-> "none"]
 NoTw == [on |-> FALSE, target |-> 2, left |-> 0, start |-> 2]
 NoWait == [kind |-> "none", left |-> 0, d |-> 0]
-Persist == [t \in Tracks |-> IF t = "A" THEN PersistA ELSE PersistB]
+Persist == [t \in Tracks |-> CASE t = "A" -> PersistA [] t = "B" -> PersistB [] OTHER -> PersistC]
+Built == IF Depth = 2 THEN {"A", "B"} ELSE {"A", "B", "C"}     \* the tracks that exist in this scene
 
 Init ==
   /\ ts = [t \in Tracks |-> "Playing"] /\ fv = [t \in Tracks |-> 2] /\ fprev = [t \in Tracks |-> 2]
   /\ tw = [t \in Tracks |-> NoTw] /\ wait = [t \in Tracks |-> NoWait]
   /\ pendP = [t \in Tracks |-> NoCmd] /\ pendR = [t \in Tracks |-> NoCmd]
-  /\ mark = [t \in Tracks |-> FALSE] /\ alive = [t \in Tracks |-> TRUE] /\ sh = [t \in Tracks |-> "Playing"]
-  /\ sst = [s \in Sounds |-> "Playing"] /\ spos = [s \in Sounds |-> 0] /\ sin = [s \in Sounds |-> TRUE]
+  /\ mark = [t \in Tracks |-> FALSE] /\ alive = [t \in Tracks |-> t \in Built] /\ sh = [t \in Tracks |-> "Playing"]
+  /\ sst = [s \in Sounds |-> "Playing"] /\ spos = [s \in Sounds |-> 0] /\ sin = [s \in Sounds |-> Host(s) \in Built]
   /\ stopc = [s \in Sounds |-> FALSE] /\ picked = FALSE
   /\ nops = 0 /\ cb = 0 /\ act = <<"Init">> /\ ev = [a |-> "tau"]
-  /\ mon = PInit(Persist, NF) /\ bad = ""
+  /\ mon = PInit(Persist, NF, Depth) /\ bad = ""
 
 \* ---------------------------------------------------------------- gameplay
 \* (pause only a track that reports Playing/Resuming, resume only one that reports a paused state:
 \*  re-pausing a silent track is outside the property-level domain, see P_C12)
 Cmd(t, c, d, wk, wt) ==
-  /\ nops < MaxOps /\ ~mark[t]
+  /\ nops < MaxOps /\ ~mark[t] /\ t \in Built
   /\ IF c = "pause" THEN sh[t] \in {"Playing", "Resuming"} ELSE sh[t] \in {"Paused", "Pausing", "WaitingToResume"}
   /\ nops' = nops + 1
   /\ IF c = "pause" THEN pendP' = [pendP EXCEPT ![t] = [c |-> c, d |-> d]] /\ UNCHANGED pendR
@@ -54,13 +56,13 @@ Cmd(t, c, d, wk, wt) ==
   /\ UNCHANGED <<ts, fv, fprev, tw, wait, mark, alive, sh, sst, spos, sin, stopc, picked, cb>>
 
 Drop(t) ==
-  /\ nops < MaxOps /\ ~mark[t]
+  /\ nops < MaxOps /\ ~mark[t] /\ t \in Built
   /\ nops' = nops + 1 /\ mark' = [mark EXCEPT ![t] = TRUE]
   /\ act' = <<"Drop", t>> /\ ev' = [a |-> "drop", t |-> t]
   /\ UNCHANGED <<ts, fv, fprev, tw, wait, pendP, pendR, alive, sh, sst, spos, sin, stopc, picked, cb>>
 
 Stop(s) ==
-  /\ nops < MaxOps /\ ~stopc[s] /\ sst[s] = "Playing"
+  /\ nops < MaxOps /\ ~stopc[s] /\ sst[s] = "Playing" /\ Host(s) \in Built
   /\ nops' = nops + 1 /\ stopc' = [stopc EXCEPT ![s] = TRUE]
   /\ act' = <<"Stop", s>> /\ ev' = [a |-> "stop", s |-> s]
   /\ UNCHANGED <<ts, fv, fprev, tw, wait, pendP, pendR, mark, alive, sh, sst, spos, sin, picked, cb>>
@@ -72,11 +74,15 @@ SetFade(target, d, s) == [on |-> TRUE, target |-> target, left |-> d, start |-> 
 Pack == [ts |-> ts, fv |-> fv, fprev |-> fprev, tw |-> tw, wait |-> wait, alive |-> alive, sh |-> sh,
          sst |-> sst, spos |-> spos, sin |-> sin]
 
-\* Track::should_be_removed (evaluated by the parent before the track's own on_start_processing)
+\* Track::should_be_removed (evaluated by the parent before the track's own on_start_processing):
+\* no sub-track that is not itself removable, the handle dropped, and - if persisting - no sounds left
+RECURSIVE ShouldRemove(_, _)
 ShouldRemove(x, t) ==
-  IF t = "B" THEN mark["B"] /\ (PersistB => ~x.sin["SB"])
-  ELSE /\ (x.alive["B"] => (mark["B"] /\ (PersistB => ~x.sin["SB"])))
-       /\ mark["A"] /\ (PersistA => ~x.sin["SA"])
+  /\ (ChildOf(t) # "none" /\ x.alive[ChildOf(t)] => ShouldRemove(x, ChildOf(t)))
+  /\ mark[t] /\ (Persist[t] => ~x.sin[SoundOf(t)])
+
+RECURSIVE Below(_)
+Below(t) == IF ChildOf(t) = "none" THEN {} ELSE {ChildOf(t)} \cup Below(ChildOf(t))
 
 \* Track::read_commands: pause, then resume
 ReadCmds(x, t) ==
@@ -93,9 +99,15 @@ SoundStart(x, s) ==
   LET x1 == IF x.sin[s] /\ x.sst[s] = "Stopped" THEN [x EXCEPT !.sin[s] = FALSE] ELSE x IN
   IF x1.sin[s] /\ stopc[s] /\ x1.sst[s] = "Playing" THEN [x1 EXCEPT !.sst[s] = "Stopping"] ELSE x1   \* stop(0) read
 
-\* on_start_processing of track t (already known not to be removed)
+\* on_start_processing of track t (already known not to be removed): its commands, its sound, then its sub-track
+RECURSIVE StartTrack(_, _)
 StartTrack(x, t) ==
-  LET s == IF t = "A" THEN "SA" ELSE "SB" IN SoundStart(ReadCmds(x, t), s)
+  LET a == SoundStart(ReadCmds(x, t), SoundOf(t))
+      c == ChildOf(t) IN
+  IF c = "none" \/ ~a.alive[c] THEN a
+  ELSE IF picked /\ ShouldRemove(a, c)      \* (a track still in the new-resource ring is inserted after the removal pass)
+       THEN [a EXCEPT !.alive = [u \in Tracks |-> IF u = c \/ u \in Below(c) THEN FALSE ELSE a.alive[u]]]
+       ELSE StartTrack(a, c)
 
 \* the fade Parameter and the state step of PlaybackStateManager::update
 FadeStep(x, t) ==
@@ -127,45 +139,44 @@ SoundProc(x, s, gain) ==
   ELSE IF x.sst[s] = "Stopping" THEN <<[x EXCEPT !.sst[s] = "Stopped"], "none">>    \* zero-length fade ends: silent
   ELSE <<[x EXCEPT !.spos[s] = @ + NF], gain>>
 
+\* Track::process for track t with the gain of everything above it: state update, early return when not advancing,
+\* sub-track, then the track's sound.  Returns <<state', heard>> (heard: per sound "none" | "full" | "mid" | "zero")
+RECURSIVE Proc(_, _, _, _)
+Proc(x, t, gAbove, heard) ==
+  IF t = "none" \/ ~x.alive[t] THEN <<x, heard>>
+  ELSE LET p1 == StateStep(FadeStep(x, t), t)
+           p == [p1 EXCEPT !.sh[t] = p1.ts[t]]
+       IN IF ~AdvT(p.ts[t]) THEN <<p, heard>>
+          ELSE LET g == Mix(gAbove, GainOf(p, t))
+                   kid == Proc(p, ChildOf(t), g, heard)
+                   snd == SoundProc(kid[1], SoundOf(t), g)
+               IN <<snd[1], [kid[2] EXCEPT ![SoundOf(t)] = snd[2]]>>
+
 Callback ==
   /\ cb < MaxCb /\ cb' = cb + 1 /\ act' = <<"Callback">>
   /\ pendP' = [t \in Tracks |-> NoCmd] /\ pendR' = [t \in Tracks |-> NoCmd]
   /\ stopc' = [s \in Sounds |-> FALSE] /\ picked' = TRUE
   /\ LET x0 == Pack @@ [fin |-> FALSE]
-         \* ---- on_start_processing
-         \* a track still in the new-resource ring is inserted after the removal pass of its first callback
-         remA == picked /\ x0.alive["A"] /\ ShouldRemove(x0, "A")
+         \* ---- on_start_processing (Mixer: the top-level sub-track A)
          x1 == IF ~x0.alive["A"] THEN x0
-               ELSE IF remA THEN [x0 EXCEPT !.alive["A"] = FALSE, !.alive["B"] = FALSE]
-               ELSE LET a == StartTrack(x0, "A")
-                        remB == picked /\ a.alive["B"] /\ ShouldRemove(a, "B") IN
-                    IF ~a.alive["B"] THEN a
-                    ELSE IF remB THEN [a EXCEPT !.alive["B"] = FALSE]
-                    ELSE StartTrack(a, "B")
+               ELSE IF picked /\ ShouldRemove(x0, "A") THEN [x0 EXCEPT !.alive = [u \in Tracks |-> FALSE]]
+               ELSE StartTrack(x0, "A")
          \* ---- process
-         pa == IF x1.alive["A"] THEN StateStep(FadeStep(x1, "A"), "A") ELSE x1
-         pa2 == [pa EXCEPT !.sh["A"] = pa.ts["A"]]
-         advA == pa2.alive["A"] /\ AdvT(pa2.ts["A"])
-         gA == GainOf(pa2, "A")
-         pb == IF advA /\ pa2.alive["B"] THEN StateStep(FadeStep(pa2, "B"), "B") ELSE pa2
-         pb2 == IF advA /\ pa2.alive["B"] THEN [pb EXCEPT !.sh["B"] = pb.ts["B"]] ELSE pb
-         advB == advA /\ pb2.alive["B"] /\ AdvT(pb2.ts["B"])
-         gB == Mix(gA, GainOf(pb2, "B"))
-         rb == IF advB THEN SoundProc(pb2, "SB", gB) ELSE <<pb2, "none">>
-         ra == IF advA THEN SoundProc(rb[1], "SA", gA) ELSE <<rb[1], "none">>
-         y == ra[1]
-         heard == [s \in Sounds |-> IF s = "SA" THEN ra[2] ELSE rb[2]]
+         r == Proc(x1, "A", "full", [s \in Sounds |-> "none"])
+         y == r[1]
+         heard == r[2]
          firstOf(s) == IF heard[s] = "full" THEN spos[s] ELSE IF heard[s] = "mid" THEN -2 ELSE -1
+         cnt(t) == IF mark[t] THEN -1 ELSE IF ChildOf(t) # "none" /\ y.alive[ChildOf(t)] THEN 1 ELSE 0
      IN
      /\ ts' = y.ts /\ fv' = y.fv /\ fprev' = y.fprev /\ tw' = y.tw /\ wait' = y.wait /\ alive' = y.alive
      /\ sh' = y.sh /\ sst' = y.sst /\ spos' = y.spos /\ sin' = y.sin
      /\ ev' = [a |-> "cb",
-               st |-> [t \in Tracks |-> IF mark[t] THEN "gone" ELSE y.sh[t]],
+               st |-> [t \in Tracks |-> IF mark[t] \/ t \notin Built THEN "gone" ELSE y.sh[t]],
                first |-> [s \in Sounds |-> firstOf(s)],
                zero |-> [s \in Sounds |-> heard[s] \in {"none", "zero"}],
                sst |-> y.sst,
                ntop |-> IF y.alive["A"] THEN 1 ELSE 0,
-               nA |-> IF mark["A"] THEN -1 ELSE IF y.alive["B"] THEN 1 ELSE 0,
+               nA |-> cnt("A"), nB |-> cnt("B"),
                panicked |-> FALSE]
   /\ UNCHANGED <<mark, nops>>
 
@@ -186,8 +197,9 @@ Spec == Init /\ [][Next]_vars
 
 PropertyHolds == bad = ""
 StatesValid == \A t \in Tracks : ts[t] \in TrackStates
-ChildNeverOutlivesParent == alive["B"] => alive["A"]
-NeverRemovedWhileChildHandleAlive == (~mark["B"] /\ alive["B"]) => alive["A"]
+ChildNeverOutlivesParent == \A t \in Tracks : (ChildOf(t) # "none" /\ alive[ChildOf(t)]) => alive[t]
+NeverRemovedWhileChildHandleAlive == \A t \in Tracks : \A u \in Below(t) : (~mark[u] /\ alive[u]) => alive[t]
 W_Removed == alive["A"]
 W_FrozenChild == ~(ts["A"] = "Paused" /\ cb > 2 /\ spos["SB"] > 0)
+W_Deep == ~(Depth = 3 /\ mark["A"] /\ mark["B"] /\ ~mark["C"] /\ alive["A"] /\ cb > 2)
 =============================================================================
